@@ -23,6 +23,24 @@ CLAIMS = {
         "note": "trusted: as C14; module iterator = filter over the same walk is covered by the getter model of C04; behaviour of an iterator after it panicked is outside the property and not compared (marked dead)",
         "technique": "Lean 4 proof (step refinement + induction over operation histories) + differential correspondence check",
     },
+    "C20": {
+        "text": "Lean 4 theorems for ALL u32 values (not enumerated: proved by case split on the finite arm list): tag-type and memory-area-type conversions round-trip, named numbers map to named variants and everything else to Custom, conversions through the id wrapper commute, the six PartialEq impls agree with numeric equality, ELF section-type classification is total with the documented ranges, framebuffer type bytes 0..2 known / all others unknown, magic constants. Tied to /repo by exhaustive block hashes of per-value signatures computed through the real API over the 2^32 domain (quick: boundary + 48 random blocks of 2^20; thorough: all 4096 blocks), expanded value-by-value against an independent Python transcription of the property on any mismatch, plus all 256 framebuffer type bytes and the constants.",
+        "design": "DESIGN.md section 6 (C20)",
+        "note": "trusted: Lean kernel and the three standard axioms; the hand-written model (tied exhaustively in the thorough tier); FNV-1a-64 block hashing; harness",
+        "technique": "Lean 4 proof (unbounded in the value) + exhaustive differential correspondence by block hashes",
+    },
+    "C10": {
+        "text": "Lean 4 theorems: checksum law (calc + magic + arch + length = 0 mod 2^32) and uniqueness for all words; hload_eq/hload_meets_spec: the modelled Multiboot2Header::load returns exactly the specified outcome (null, too short, missing padding, wrong magic, checksum mismatch, success) for every memory content with a defined architecture word, never panics, profile independent. Tied to /repo by HLOAD cases (all lengths 0..80 x checksum/magic corruptions, sampled to 64 KiB, dev+release, guard page) and exhaustive block hashes of calc_checksum over all 2^32 lengths x both architectures x 2 magics (thorough).",
+        "design": "DESIGN.md section 6 (C10)",
+        "note": "trusted: as C14; an undefined architecture word is outside the property's hypothesis (the model says `ub` there, the Spec `anything`)",
+        "technique": "Lean 4 proof + differential correspondence (cases + exhaustive block hashes)",
+    },
+    "C13": {
+        "text": "Lean 4 theorems: the linear scan of the model is the least-index search of the specification (induction over the buffer), findHeader_meets_spec: for EVERY buffer the modelled find_header returns exactly none / the first aligned occurrence with its stored length when inside the buffer / an error, never panics; none_iff, some_sound spell out first-occurrence and window semantics. Tied to /repo by FIND cases: every buffer length around 0..80, 8192+-16, 16384+-8, magic at every position 0..40 and 8150..8200, stored lengths fitting / one too many / huge, second magics, partial magics; dev+release.",
+        "design": "DESIGN.md section 6 (C13)",
+        "note": "trusted: as C14; the error KIND for misaligned/truncated is not fixed by the property: impl and model are compared modulo the kind (canon), the Spec admits any error",
+        "technique": "Lean 4 proof (refinement of the scan to find? over the index range) + differential correspondence",
+    },
 }
 
 NOT_YET = "not yet claimed: the Lean model, theorems and correspondence check for this property are still being built (DESIGN.md section 12 gives the order); the technique applies and the property will be claimed"
